@@ -6,6 +6,8 @@ package harness
 import (
 	"io"
 	"net"
+	"net/netip"
+	"os"
 	"runtime"
 	"sync"
 	"time"
@@ -103,6 +105,83 @@ func (c *simConn) isClosed() bool {
 	default:
 		return false
 	}
+}
+
+// muxSock is one socket of the world for a REAL ice.UDPMuxDefault to sit on: it offers the netip.AddrPort calls (as a
+// *net.UDPConn does, so the mux takes its AddrPort paths), and a blocked write returns when the write deadline is armed
+// (that is how the mux aborts writes) or the socket is closed.
+type muxSock struct {
+	*simConn
+	dmu   sync.Mutex
+	armed chan struct{} // closed while a write deadline is set
+}
+
+func newMuxSock(w *world, addr string) *muxSock {
+	c := &simConn{w: w, laddr: udp(addr), in: make(chan gram, 1024), closed: make(chan struct{})}
+	w.mu.Lock()
+	w.conns[c.laddr.String()] = c
+	w.all = append(w.all, c)
+	w.opened++
+	w.mu.Unlock()
+
+	return &muxSock{simConn: c, armed: make(chan struct{})}
+}
+
+func (c *muxSock) SetWriteDeadline(t time.Time) error {
+	c.dmu.Lock()
+	defer c.dmu.Unlock()
+	select {
+	case <-c.armed: // armed now
+		if t.IsZero() {
+			c.armed = make(chan struct{})
+		}
+	default:
+		if !t.IsZero() {
+			close(c.armed)
+		}
+	}
+
+	return nil
+}
+
+func (c *muxSock) SetDeadline(t time.Time) error { return c.SetWriteDeadline(t) }
+
+func (c *muxSock) WriteTo(b []byte, a net.Addr) (int, error) {
+	c.dmu.Lock()
+	armed := c.armed
+	c.dmu.Unlock()
+	select {
+	case <-armed:
+		return 0, os.ErrDeadlineExceeded
+	default:
+	}
+	c.w.mu.Lock()
+	blk := c.w.block[c.laddr.String()]
+	c.w.mu.Unlock()
+	if blk {
+		select {
+		case <-armed:
+			return 0, os.ErrDeadlineExceeded
+		case <-c.closed:
+			return 0, io.ErrClosedPipe
+		}
+	}
+
+	return c.simConn.WriteTo(b, a)
+}
+
+func (c *muxSock) WriteToAddrPort(b []byte, a netip.AddrPort) (int, error) {
+	return c.WriteTo(b, net.UDPAddrFromAddrPort(a))
+}
+
+func (c *muxSock) ReadFromAddrPort(b []byte) (int, netip.AddrPort, error) {
+	n, a, err := c.simConn.ReadFrom(b)
+	if err != nil {
+		return n, netip.AddrPort{}, err
+	}
+	ua, _ := a.(*net.UDPAddr)
+
+	return n, netip.AddrPortFrom(ua.AddrPort().Addr().Unmap(), ua.AddrPort().Port()), nil
 }
 
 // simMux implements ice.UDPMux against the world (public API only).
